@@ -471,6 +471,8 @@ Lemma wf_exact : wf_family fam_exact = true. Proof. reflexivity. Qed.
 Lemma wf_kiss : wf_family fam_kiss = true. Proof. reflexivity. Qed.
 Lemma wf_sgpr : wf_family fam_sgpr = true. Proof. reflexivity. Qed.
 Lemma wf_var b : wf_family (fam_var b) = true. Proof. destruct b; reflexivity. Qed.
+Lemma wf_exact_nan : wf_family fam_exact_nan = true. Proof. reflexivity. Qed.
+Lemma wf_kiss_dyn : wf_family fam_kiss_dyn = true. Proof. reflexivity. Qed.
 
 (* ==== every observable operation, not only the final prediction ==== *)
 
@@ -704,6 +706,27 @@ Proof.
     unfold tag_eqb. rewrite !Nat.eqb_refl. reflexivity. }
   rewrite Hrefl in Hd. discriminate.
 Qed.
+
+(* ---- the families added for NaN targets / the data-following grid ---- *)
+Lemma wf_train_exact_nan : forallb (train_use_ok fam_exact_nan) (f_train_uses fam_exact_nan) = true /\ uses_nodup (f_train_uses fam_exact_nan) = true.
+Proof. split; reflexivity. Qed.
+Lemma wf_train_kiss_dyn : forallb (train_use_ok fam_kiss_dyn) (f_train_uses fam_kiss_dyn) = true /\ uses_nodup (f_train_uses fam_kiss_dyn) = true.
+Proof. split; reflexivity. Qed.
+
+(* the grid replacement (clearing K_UU when the data-following grid is laid out anew) is necessary:
+   without it a prediction inside the training range followed by one outside it (or the reverse, also
+   with set_train_data in between) multiplies the interpolation weights of the new grid with the K_UU
+   of the old one; the per-policy key of mean_cache keeps 'ignore' / 'mask' / 'fill' apart *)
+Definition ex_hist_nan : list op := [OPredict 0; OPredict 1; OPredict 2; OSetData; OPredict 3; OPredict 0; OPredict 2].
+Lemma grid_and_nan_examples :
+  differs (points_without 12) fam_kiss_dyn [OPredict 0] 3 = true /\
+  differs (points_without 12) fam_kiss_dyn [OPredict 3] 1 = true /\
+  differs (points_without 12) fam_kiss_dyn [OPredict 3; OSetData] 0 = true /\
+  differs all_on fam_kiss_dyn [OPredict 3; OSetData] 0 = false /\
+  admissible all_on fam_exact_nan init ex_hist_nan = true /\
+  map (fun e => (e_slot e, e_key e)) (cch (run all_on fam_exact_nan init ex_hist_nan)) = [(MEAN, 2); (MEAN, 0); (MEAN, 1); (STRAT, 0)] /\
+  wf_family fam_exact_nan = true /\ wf_family fam_kiss_dyn = true.
+Proof. vm_compute. repeat split; reflexivity. Qed.
 
 Definition ex_hist : list op :=
   [OPredict 0; OBackward; OTrain; OStep; OEval; OSetData; OPredict 2; OLoad; OFantasy; OPredict 1; OFantasy; OPrior].
